@@ -5,6 +5,7 @@ import EupsModel.Lemmas.RecordDir
 import EupsModel.Lemmas.RecordQual
 import EupsModel.Lemmas.RecordMacro
 import EupsModel.Lemmas.RecordMacroText
+import EupsModel.Lemmas.RecordHistory
 /-! C16 — database records round-trip and stacks are relocatable.  Property theorems only.
 Model and the specification-side definitions used in the statements (`DirPl`, `TabPl`, `DirPl.at`, `TabPl.at`,
 `declaredProd`, `canonInfo`, `PlaceOK`, `DeclEx`, `ReadEx`, `readBack`): `Model/Record.lean`; helper lemmas:
@@ -240,6 +241,35 @@ theorem C16_qualifier_clash_chain_witness :
         .ok { name := some [97], tag := some [99],
               flavors := [([76, 58, 98], { version := Fld.val [50], declarer := Fld.val [114] })] } :=
   ⟨_, rfl, rfl⟩
+
+/-! ### Histories of operations on the records of one product
+
+`DbOp` = `Database.undeclare` / `unassignTag` / `assignTag` / `declare` (as far as the record goes: the block of one flavor
+is set); `PDir.run d ops` applies a history in order — what one long-lived `Database` object does in one process. -/
+
+/-- **A history leaves the flavors it does not operate on alone**: whatever the operations and their order, every
+block of a flavor `g` that none of them is about — in every chain and every version record — is after the history what
+it was before. -/
+theorem C16_history_other_flavors (d : PDir) (ops : List DbOp) (g : Str) (h : ∀ op ∈ ops, op.flavor ≠ g) :
+    (∀ t, (d.run ops).blockC t g = d.blockC t g) ∧ (∀ v, (d.run ops).blockV v g = d.blockV v g) :=
+  run_blocks ops g h d
+
+/-- **An undeclared flavor stays gone**: a version is declared for several flavors, one flavor is undeclared, then any
+history follows that does not declare that flavor again — further declarations of the same version for other flavors,
+tag assignments, other undeclarations: the record of that version has no block for the undeclared flavor. -/
+theorem C16_undeclared_stays_gone (d : PDir) (version flavor : Str) (ops : List DbOp)
+    (h : ∀ op ∈ ops, op.flavor ≠ flavor) :
+    ((d.undeclare version flavor).run ops).blockV version flavor = none :=
+  undeclared_stays_gone d version flavor ops h
+
+/-- Non-vacuity: version `1` for flavors `L` and `G`; `G` is undeclared, then `1` is declared for a third flavor `M` and
+redeclared for `L`: `G` is gone, `M` is there. -/
+example :
+    let vi : Info := { declarer := Fld.val [114], productDir := Fld.val [100] }
+    let d : PDir := { versions := [([49], { name := some [97], version := some [49], flavors := [([76], vi), ([71], vi)] })],
+                      chains := [] }
+    let d' := (d.undeclare [49] [71]).run [.declare [97] [49] [77] vi, .declare [97] [49] [76] vi]
+    d'.blockV [49] [71] = none ∧ d'.blockV [49] [77] = some vi ∧ d'.blockV [49] [76] = some vi := by decide
 
 /-! ## Hand-written records that use macros
 
